@@ -257,7 +257,37 @@ def r03_4(ctx):
     return rr
 
 
-RULES = [r03_1, r03_2, r03_3, r03_4]
+APPROXIMATE = {"allclose", "isclose", "approx", "round", "around", "floor", "ceil", "rint", "trunc", "array_equiv", "assert_allclose"}
+
+
+def r03_5(ctx):
+    rr = RuleResult("R03.5", "COVER", "the layout-equality test behind both barriers (_chunks_match) is exact: sizes are compared only with ==/!=/is and isnan, never with a tolerance, rounding or an order comparison", min_instances=1)
+    repo = ctx.repo
+    f = repo.mod("dask_array._expr").functions.get("_chunks_match")
+    need(f is not None, "dask_array/_expr.py::_chunks_match")
+    bad = []
+    for n in ast.walk(f.node):
+        if isinstance(n, ast.Call):
+            tail = (dotted(n.func) or "").rsplit(".", 1)[-1]
+            if tail in APPROXIMATE:
+                bad.append((n, f"calls {dotted(n.func)}(...)"))
+        if isinstance(n, ast.Compare) and any(isinstance(op, (ast.Lt, ast.LtE, ast.Gt, ast.GtE)) for op in n.ops):
+            bad.append((n, f"order comparison `{unparse(n)[:50]}`"))
+    # callers: both barriers decide with it
+    users = [g.qualname for g in repo.all_functions() if any(isinstance(c, ast.Call) and dotted(c.func) == "_chunks_match" for c in ast.walk(g.node)) and g is not f]
+    rr.inst(f.construct, approximate_constructs=len(bad), used_by=sorted(users))
+    need(len(users) >= 2, "_chunks_match is no longer used by both barriers (_materialize, ChunksFreeze.lower_once)")
+    for n, what in bad:
+        ctx.finding(
+            rr, site(f, n)[:160],
+            f"_chunks_match {what}: two layouts that differ by a few elements in large chunks would count as equal, the bridge back to the advertised chunks is skipped, and blocks of the "
+            f"optimizer's layout are published under the advertised keys",
+            func=f, node=n,
+        )
+    return rr
+
+
+RULES = [r03_1, r03_2, r03_3, r03_4, r03_5]
 
 LEVEL_TEXT = (
     "Static decision of the layout-barrier clause of C03 ('even when optimization internally chose a different block "
